@@ -634,4 +634,12 @@ def r11_7(ctx: Ctx) -> RuleResult:
     return rr
 
 
-RULES = [r11_1, r11_2, r11_3, r11_4, r11_5, r11_6, r11_7]
+def r11_8(ctx: Ctx) -> RuleResult:
+    """A document supplied as JSON text gives what the parsed value gives, whatever was evaluated or patched before:
+    nothing on the way from an entry point to the decoded document is remembered between calls (= R9.6)."""
+    from .c09 import r9_6
+
+    return r9_6(ctx, "R11.8")
+
+
+RULES = [r11_1, r11_2, r11_3, r11_4, r11_5, r11_6, r11_7, r11_8]
